@@ -498,6 +498,59 @@ def beta_reduce(func):
     return _Beta.count - before
 
 
+def next_default_to_try(func):
+    """`x = next(G, None)` followed by `if x is None: <leaves>`  ->  `try: x = next(G)` / `except StopIteration: <leaves>`; and
+    `return next(G, None)` -> try: return next(G) / except StopIteration: return None.  (The sequences searched hold objects, never
+    None.)  One spelling for "find it or take the miss path".  Returns the number of rewrites."""
+    count = 0
+
+    def is_next_none(v):
+        return (isinstance(v, ast.Call) and isinstance(v.func, ast.Name) and v.func.id == 'next' and len(v.args) == 2 and not v.keywords
+                and isinstance(v.args[1], ast.Constant) and v.args[1].value is None)
+
+    def stop_handler(body):
+        return ast.ExceptHandler(type=ast.Name(id='StopIteration', ctx=ast.Load()), name=None, body=body)
+
+    def visit(stmts):
+        nonlocal count
+        j = 0
+        while j < len(stmts):
+            st = stmts[j]
+            for fld in ('body', 'orelse', 'finalbody'):
+                sub = getattr(st, fld, None)
+                if isinstance(sub, list) and not isinstance(st, (ast.FunctionDef, ast.AsyncFunctionDef, ast.ClassDef)):
+                    visit(sub)
+            for h in getattr(st, 'handlers', []) or []:
+                visit(h.body)
+            if isinstance(st, ast.Return) and is_next_none(st.value):
+                call = ast.Call(func=st.value.func, args=[st.value.args[0]], keywords=[])
+                new = ast.Try(body=[ast.Return(value=call)], handlers=[stop_handler([ast.Return(value=ast.Constant(value=None))])],
+                              orelse=[], finalbody=[])
+                ast.copy_location(new, st)
+                ast.fix_missing_locations(new)
+                stmts[j] = new
+                count += 1
+            elif (isinstance(st, ast.Assign) and len(st.targets) == 1 and isinstance(st.targets[0], ast.Name) and is_next_none(st.value)
+                  and j + 1 < len(stmts) and isinstance(stmts[j + 1], ast.If) and not stmts[j + 1].orelse):
+                x = st.targets[0].id
+                t = stmts[j + 1].test
+                is_none = (isinstance(t, ast.Compare) and len(t.ops) == 1 and isinstance(t.ops[0], ast.Is) and isinstance(t.left, ast.Name)
+                           and t.left.id == x and isinstance(t.comparators[0], ast.Constant) and t.comparators[0].value is None) or \
+                          (isinstance(t, ast.UnaryOp) and isinstance(t.op, ast.Not) and isinstance(t.operand, ast.Name) and t.operand.id == x)
+                body = stmts[j + 1].body
+                if is_none and body and isinstance(body[-1], (ast.Return, ast.Raise, ast.Continue, ast.Break)):
+                    call = ast.Call(func=st.value.func, args=[st.value.args[0]], keywords=[])
+                    new = ast.Try(body=[ast.Assign(targets=st.targets, value=call, type_comment=None)], handlers=[stop_handler(body)],
+                                  orelse=[], finalbody=[])
+                    ast.copy_location(new, st)
+                    ast.fix_missing_locations(new)
+                    stmts[j:j + 2] = [new]
+                    count += 1
+            j += 1
+    visit(func.body)
+    return count
+
+
 def conditional_callee_to_branches(func):
     """`f = A if c else B` directly followed by the single use `... f(args) ...` as the value of a return / assignment / expression
     statement  ->  `if c: ... A(args) ... else: ... B(args) ...`.  Returns the number of rewrites."""
@@ -1658,6 +1711,9 @@ class Inliner:
                 k = conditional_callee_to_branches(fi.node)
                 if k:
                     self.report.setdefault('conditional_callees', {})[q] = k
+                k = next_default_to_try(fi.node)
+                if k:
+                    self.report.setdefault('next_with_default', {})[q] = k
                 k = unroll_literal_loops(fi.node)
                 if k:
                     self.report.setdefault('unrolled_literal_loops', {})[q] = k
